@@ -200,6 +200,19 @@ CHECKS["C17"] = dict(
          "coordinates (exact float32 distances).",
     ref="6/C17")
 
+CHECKS["C15"] = dict(
+    technique="TLA+ definitions of the surrogate guarantees (Defs_Surrogates: multiset equality, fixed-point DFT power spectrum, twins, twin-walk transition relation) + TLC-generated data/patterns replayed on Surrogates + TLC trace validation (Val_C15)",
+    text="Gen_C15 generates data sets of every length 3..12 (odd and even) with k in {1,2,3,5} repeated calls on one object and seeds, and "
+         "every pattern over {0,1,2} of the cfg length (a distinct-valued series whose states recur exactly when the patterns agree) with "
+         "embedding dimension 1..2 and min_dist 0..2.  TLC decides on the recorded surrogates: row-wise permutation-exactness (shuffle, "
+         "AAFT, refined AAFT true amplitudes), amplitude spectrum at every non-zero non-Nyquist frequency via a fixed-point DFT with "
+         "generated cos/sin tables (Fourier, refined AAFT true spectrum) also after repeated calls, the original data untouched, "
+         "TwinsDef (exactly the pairs further apart than min_dist with identical recurrence rows and more than one neighbour) and "
+         "TwinWalk (every step goes to the own successor or the successor of a twin, or restarts at the end).",
+    note="Spectra compared to 2 % (fixed-point squares); RecurrencePlot.twin_surrogates / twins are not driven yet; the twin walk is "
+         "checked as a relation on seeded runs, not replayed choice by choice.",
+    ref="6/C15")
+
 NOT_APPLICABLE = {
     "C20": "memory safety of compiled kernels is a property of concrete addresses, not of abstract state a TLA+ "
            "specification maintains; nothing binds a PlusCal transcription of index arithmetic to the compiled code "
